@@ -281,5 +281,157 @@ theorem align1_sound_enum (d : Decl) (x : FTy) (l : Layout) (hk : d.kind = .enum
           simp only
           omega
 
+/-! ## padding -/
+
+theorem roundUp_one (n : Nat) : roundUp n 1 = n := by simp [roundUp]
+
+def AlignPos (fs : List FTy) : Prop := ∀ f ∈ fs, 0 < f.align
+
+theorem cEnd_pack_one {fs : List FTy} (hp : AlignPos fs) (off : Nat) :
+    cEnd (some 1) fs off = off + sumSizes fs := by
+  induction fs generalizing off with
+  | nil => simp [cEnd, sumSizes]
+  | cons f t ih =>
+    have h1 : 0 < f.align := hp f (by simp)
+    have h2 : AlignPos t := fun g hg => hp g (by simp [hg])
+    have : effAlign (some 1) f.align = 1 := by simp [effAlign]; omega
+    simp only [cEnd, this, roundUp_one, ih h2]
+    simp [sumSizes]; omega
+
+theorem cOffsets_pack_one {fs : List FTy} (hp : AlignPos fs) (off : Nat) :
+    cOffsets (some 1) fs off = (List.range fs.length).map (fun i => off + sumSizes (fs.take i)) := by
+  induction fs generalizing off with
+  | nil => simp [cOffsets]
+  | cons f t ih =>
+    have h1 : 0 < f.align := hp f (by simp)
+    have h2 : AlignPos t := fun g hg => hp g (by simp [hg])
+    have : effAlign (some 1) f.align = 1 := by simp [effAlign]; omega
+    simp only [cOffsets, this, roundUp_one, ih h2, List.length_cons, List.range_succ_eq_map,
+      List.map_cons, List.map_map]
+    refine List.cons_eq_cons.mpr ⟨?_, ?_⟩
+    · simp [sumSizes]
+    · apply List.map_congr_left
+      intro i _
+      simp [sumSizes]; omega
+
+/-- packed(1), not transparent, no alignment request: size = Σ field sizes. -/
+theorem structLayout_packed_pad {rr : RRepr} {fs : List FTy} {l : Layout}
+    (hl : structLayout rr fs = some l) (hp : AlignPos fs) (hpk : rr.pack = some 1)
+    (htr : rr.transparent = false) (hal : rr.align = 1) :
+    l.pad = 0 ∧ l.align = 1 ∧ l.size = sumSizes fs := by
+  unfold structLayout at hl
+  split at hl; · cases hl
+  split at hl; · cases hl
+  simp only [htr, Bool.false_eq_true, ↓reduceIte] at hl
+  injection hl with hl; subst hl
+  have h1 : fieldsAlign rr.pack fs = 1 := by rw [hpk]; exact fieldsAlign_pack_one fs
+  have h2 : (if rr.c = true then cEnd rr.pack fs 0 else sumSizes fs) = sumSizes fs := by
+    split
+    · rw [hpk, cEnd_pack_one hp]; simp
+    · rfl
+  simp [h1, hal, h2, roundUp_one]
+
+/-! ## `get_repr` keeps a leading / trailing `#[repr(C, packed)]` -/
+
+theorem getReprFrom_keeps_packed {as : List (List Hint)} :
+    ∀ {acc r : Representation} {n : Nat}, getReprFrom acc as = some r →
+      acc.modifier = some (.packed n) → acc.repr = .c →
+      r.modifier = some (.packed n) ∧ r.repr = .c := by
+  induction as with
+  | nil => intro acc r n h hm hb; simp [getReprFrom] at h; subst h; exact ⟨hm, hb⟩
+  | cons a t ih =>
+    intro acc r n h hm hb
+    simp only [getReprFrom] at h
+    cases hp : parseAttr a with
+    | none => simp [hp] at h
+    | some ra =>
+      simp only [hp] at h
+      cases hc : combine acc ra with
+      | none => simp [hc] at h
+      | some acc' =>
+        simp only [hc] at h
+        have : acc'.modifier = some (.packed n) ∧ acc'.repr = .c := by
+          obtain ⟨b1, m1⟩ := acc
+          obtain ⟨b2, m2⟩ := ra
+          simp only at hm hb
+          subst hm hb
+          simp only [combine] at hc
+          cases b2 <;> simp [combineBase] at hc
+          rcases m2 with _ | (b | b)
+          · simp [combineMod] at hc; subst hc; exact ⟨rfl, rfl⟩
+          · by_cases hnb : n = b
+            · simp [combineMod, hnb] at hc; subst hc; subst hnb; exact ⟨rfl, rfl⟩
+            · simp [combineMod, hnb] at hc
+          · simp [combineMod] at hc
+        exact ih h this.1 this.2
+
+theorem parseAttr_c_packed : parseAttr [.c, .packed 1] = some ⟨.c, some (.packed 1)⟩ := by
+  decide
+
+theorem parseAttr_c : parseAttr [.c] = some ⟨.c, none⟩ := by decide
+
+theorem getRepr_leading_packed {as : List (List Hint)} {r : Representation}
+    (h : getRepr ([.c, .packed 1] :: as) = some r) : r.modifier = some (.packed 1) ∧ r.repr = .c := by
+  simp only [getRepr, getReprFrom, parseAttr_c_packed] at h
+  have hc : combine Representation.default ⟨.c, some (.packed 1)⟩ = some ⟨.c, some (.packed 1)⟩ := by
+    decide
+  simp only [hc] at h
+  exact getReprFrom_keeps_packed h rfl rfl
+
+theorem getReprFrom_append {as : List (List Hint)} {b : List Hint} :
+    ∀ {acc r : Representation}, getReprFrom acc (as ++ [b]) = some r →
+      ∃ r1 rb, getReprFrom acc as = some r1 ∧ parseAttr b = some rb ∧ combine r1 rb = some r := by
+  induction as with
+  | nil =>
+    intro acc r h
+    simp only [List.nil_append, getReprFrom] at h
+    cases hp : parseAttr b with
+    | none => simp [hp] at h
+    | some rb =>
+      simp only [hp] at h
+      cases hc : combine acc rb with
+      | none => simp [hc] at h
+      | some acc' =>
+        simp [hc] at h; subst h
+        exact ⟨acc, rb, rfl, rfl, hc⟩
+  | cons a t ih =>
+    intro acc r h
+    simp only [List.cons_append, getReprFrom] at h ⊢
+    cases hp : parseAttr a with
+    | none => simp [hp] at h
+    | some ra =>
+      simp only [hp] at h ⊢
+      cases hc : combine acc ra with
+      | none => simp [hc] at h
+      | some acc' =>
+        simp only [hc] at h ⊢
+        exact ih h
+
+theorem getRepr_trailing_packed {as : List (List Hint)} {r : Representation}
+    (h : getRepr (as ++ [[.c, .packed 1]]) = some r) : r.modifier = some (.packed 1) ∧ r.repr = .c := by
+  obtain ⟨r1, rb, _, hp, hc⟩ := getReprFrom_append h
+  rw [parseAttr_c_packed] at hp
+  injection hp with hp; subst hp
+  obtain ⟨b1, m1⟩ := r1
+  simp only [combine] at hc
+  cases b1 <;> simp [combineBase] at hc
+  rcases m1 with _ | (a | a)
+  · simp [combineMod] at hc; subst hc; exact ⟨rfl, rfl⟩
+  · by_cases ha : a = 1
+    · simp [combineMod, ha] at hc; subst hc; exact ⟨rfl, rfl⟩
+    · simp [combineMod, ha] at hc
+  · simp [combineMod] at hc
+
+/-- Consequence for rustc's view: packs to 1, not transparent, no alignment request. -/
+theorem rustc_view_of_c_packed {attrs : List (List Hint)} {r : Representation} {rr : RRepr}
+    (hg : getRepr attrs = some r) (hm : r.modifier = some (.packed 1)) (hb : r.repr = .c)
+    (hr : rustcRepr attrs.flatten = some rr) :
+    rr.pack = some 1 ∧ rr.transparent = false ∧ rr.align = 1 := by
+  have inv := Inv.getRepr hg
+  have hp : r.isPacked = true := by simp [Representation.isPacked, hm]
+  have hgt : r.alignGt1 = false := by simp [Representation.alignGt1, hm]
+  refine ⟨pack_one_of_isPacked inv hr hp, ?_, align_eq_one_of_not_gt1 inv hr hgt⟩
+  obtain ⟨_, htr, _⟩ := rustcRepr_fields hr
+  rw [htr, inv.transparent, hb]
+
 end Derive
--- touch
